@@ -21,7 +21,7 @@ def gen_cases(rng, tier):
     n = {'quick': 400, 'thorough': 8000, 'search': 300}[tier]
     cases = []
     while len(cases) < n:
-        kind = rng.choice(['cubic', 'ortho', 'hex', 'tri'])
+        kind = rng.choice(['cubic', 'ortho', 'hex', 'mono', 'hexlike', 'tri', 'tri_full'])
         m = synth.int_lattice(rng, kind)
         ns = rng.randint(2, 6)
         pts = set()
@@ -46,12 +46,57 @@ def gen_cases(rng, tier):
             table.append([a, f, t, s, s + tr])
         if len(table) < 2:
             continue
-        cases.append({'m': m, 'sites8': [list(p) for p in pts], 'table': table, 'W': rng.choice([0, 1, 3, 10, 40]),
-                      'maxd': rng.choice([0.5, 1.0, 2.0, 3.0, 4.5, 7.0])})
+        if kind not in ('cubic', 'ortho') and rng.random() < 0.4:
+            hard = _hard_image_case(rng, m)
+            if hard is not None:
+                cases.append(hard)
+                continue
+        case = {'m': m, 'sites8': [list(p) for p in pts], 'table': table, 'W': rng.choice([0, 1, 3, 10, 40]),
+                'maxd': rng.choice([0.5, 1.0, 2.0, 3.0, 4.5, 7.0])}
+        if rng.random() < 0.5:
+            # cut-off just above the true (minimum-image) distance of one pair of sites: any overestimate of that distance flips a decision
+            d2 = _d2(case)
+            i = rng.randrange(ns)
+            j = rng.choice([x for x in range(ns) if x != i])
+            case['maxd'] = round(math.sqrt(float(d2[i][j])) * rng.choice([1.02, 1.1]), 6)
+        cases.append(case)
     if tier != 'search':
         for k in range(6 if tier == 'quick' else 40):
             cases.append({'real': True, 'seed': rng.randrange(10**6), 'T': rng.choice([60, 120]), 'maxd': rng.choice([1.0, 3.0])})
     return cases
+
+
+def _hard_image_case(rng, m):
+    """Boundary class of the minimum-image convention: two sites A, B whose nearest image is NOT the component-wise wrapped
+    difference (skewed cells), two further sites C, D far from everything, cut-off just above |AB|; atom 0 jumps C->A and atom 1 D->B
+    close in time, so the pair is collective exactly through the A-B distance."""
+    G = synth.gram(m)
+    K = 1
+    while not synth.window_ok(m, K):
+        K += 1
+    d2 = lambda p, q: synth.min_image_d2(G, [Fr(q[k] - p[k], 8) for k in range(3)], K)
+    for _try in range(200):
+        A = [rng.randint(0, 7) for _ in range(3)]
+        B = [rng.randint(0, 7) for _ in range(3)]
+        diff = [(B[k] - A[k]) % 8 for k in range(3)]
+        if any(x == 4 for x in diff) or A == B:
+            continue
+        wrapped = [Fr(x if x < 4 else x - 8, 8) for x in diff]
+        true = d2(A, B)
+        if synth.qf(G, wrapped) <= true:
+            continue
+        cut2 = true * Fr(11, 10) ** 2
+        for _t2 in range(40):
+            C = [rng.randint(0, 7) for _ in range(3)]
+            D = [rng.randint(0, 7) for _ in range(3)]
+            pts = [A, B, C, D]
+            if len({tuple(p) for p in pts}) < 4:
+                continue
+            if all(d2(pts[i], pts[j]) > cut2 * Fr(21, 20) for i in range(4) for j in range(i) if (i, j) != (1, 0)):
+                s0 = rng.randint(0, 20)
+                table = [[0, 2, 0, s0, s0 + 1], [1, 3, 1, s0 + rng.randint(0, 2), s0 + 3]]
+                return {'m': m, 'sites8': pts, 'table': table, 'W': rng.choice([3, 10]), 'maxd': round(math.sqrt(float(true)) * 1.05, 6), 'hard': True}
+    return None
 
 
 def _d2(case):
@@ -208,6 +253,8 @@ def classify(case, out):
     tags = ['real' if case.get('real') else 'synthetic']
     if out.get('moved'):
         tags.append('cutoff-moved-off-boundary')
+    if case.get('hard'):
+        tags.append('nearest-image-not-wrapped-difference')
     t = out.get('table') or case.get('table') or []
     if any(r[4] - r[3] > 4 for r in t):
         tags.append('long-transit-jump')
